@@ -275,3 +275,55 @@ Fixpoint hrun1 (cols rows : Z) (st : hstate) (buf : buffer) (nows : list Z)
           end
       end
   end.
+
+(* ---- specification vocabulary used by the statements in Props/C18.v *)
+(* tick timestamps: positive and non-decreasing *)
+Fixpoint nondecr (prev : Z) (l : list Z) : Prop :=
+  match l with [] => True | t :: r => prev <= t /\ nondecr t r end.
+Definition tick_times_ok (nows : list Z) : Prop := nondecr 1 nows.
+
+(* the times of the ticks that performed a step, in order *)
+Definition step_times {E} (tr : list (Z * bool * E)) : list Z :=
+  map (fun x => fst (fst x)) (filter (fun x => snd (fst x)) tr).
+Definition step_count {E} (tr : list (Z * bool * E)) : Z := zlen (step_times tr).
+
+(* any two steps, the earlier one at t1 (clock running: t1 > 0), are at least [speed] apart *)
+Definition rate_limited (speed : Z) (times : list Z) : Prop :=
+  forall l1 t1 l2 t2, times = l1 ++ t1 :: l2 -> In t2 l2 -> 0 < t1 -> speed <= t2 - t1.
+
+Definition hno_delay (evs : list hev) : Prop := forall ms, ~ In (HDelay ms) evs.
+(* every buffer assignment replaces the animation's row by exactly [cols] cells *)
+Definition hin_row (cols row : Z) (evs : list hev) : Prop :=
+  forall r s, In (HRow r s) evs -> r = row /\ zlen s = cols.
+Definition buf_wf (cols rows : Z) (buf : buffer) : Prop :=
+  zlen buf = rows /\ forall row, In row buf -> zlen row = cols.
+Definition hwf (l : hlcd) : Prop :=
+  1 <= l_cols l /\ buf_wf (l_cols l) (l_rows l) (l_buf l) /\
+  forall st, In st (l_anims l) -> 0 <= h_row st < l_rows l.
+
+(* the number of steps a non-looping animation performs before it is inactive *)
+Definition hsteps_total (sty : style) (cols : Z) (text : list Z) : Z :=
+  let n := zlen text in
+  match sty with
+  | Scroll => n + cols
+  | Blink => 1
+  | Typewriter => if n <=? 1 then 1 else n - 1
+  | Bounce => if (n <=? 0) || (n >=? cols) then 1 else 2 * (cols - n)
+  end.
+
+(* one animation ticked through a history; the buffer it meets at each tick is arbitrary
+   (other animations and other LCD calls may have rewritten it in between) *)
+Inductive hsteps (cols rows : Z) : hstate -> list Z -> hstate -> list (Z * bool * list hev) -> Prop :=
+| hs_nil st : hsteps cols rows st [] st []
+| hs_cons st now buf st' buf' ev rest stn tr :
+    buf_wf cols rows buf ->
+    htick1 cols rows now st buf = Some (st', buf', ev) ->
+    hsteps cols rows st' rest stn tr ->
+    hsteps cols rows st (now :: rest) stn ((now, hgate st now, ev) :: tr).
+
+(* states of the real object: constructor, successful animate calls, ticks *)
+Inductive hreach : hlcd -> Prop :=
+| hr_new cols rows l : hnew cols rows = Some l -> hreach l
+| hr_animate l sty row text speed loop l' ev :
+    hreach l -> hanimate l sty row text speed loop = Some (l', ev) -> hreach l'
+| hr_tick l now l' ev : hreach l -> htick l now = Some (l', ev) -> hreach l'.
